@@ -1420,8 +1420,8 @@ INGEST_SITES = [
     {"name": "ingest_ttl_source", "source": "ttl", "params": "(manifest_expires_at : Int) (config_ : Cfg) (wall_now : Int)", "fallback": """
 def ingest_ttl_source (manifest_expires_at : Int) (config_ : Cfg) (wall_now : Int) : Option Int :=
   manifest_ttl manifest_expires_at config_ wall_now"""},
-    {"name": "ingest_shard_ttl", "call": "publish_shards", "on": "dht_", "arg": 4, "params": "(ttl : Int)", "fallback": """
-def ingest_shard_ttl (ttl : Int) : Int :=
+    {"name": "ingest_shard_ttl", "call": "publish_shards", "on": "dht_", "arg": 4, "params": "(ttl : Int) (config_ : Cfg)", "fallback": """
+def ingest_shard_ttl (ttl : Int) (config_ : Cfg) : Int :=
   ttl"""},
 ]
 
@@ -1429,14 +1429,14 @@ RECEIVE_SITES = [
     {"name": "receive_ttl_source", "source": "ttl", "params": "(manifest_expires_at : Int) (config_ : Cfg) (wall_now : Int)", "fallback": """
 def receive_ttl_source (manifest_expires_at : Int) (config_ : Cfg) (wall_now : Int) : Option Int :=
   manifest_ttl manifest_expires_at config_ wall_now"""},
-    {"name": "receive_shard_ttl", "call": "publish_shards", "on": "dht_", "arg": 4, "params": "(ttl : Int)", "fallback": """
-def receive_shard_ttl (ttl : Int) : Int :=
+    {"name": "receive_shard_ttl", "call": "publish_shards", "on": "dht_", "arg": 4, "params": "(ttl : Int) (config_ : Cfg)", "fallback": """
+def receive_shard_ttl (ttl : Int) (config_ : Cfg) : Int :=
   ttl"""},
-    {"name": "receive_announce_ttl", "call": "announce_chunk", "arg": 1, "params": "(ttl : Int)", "fallback": """
-def receive_announce_ttl (ttl : Int) : Int :=
+    {"name": "receive_announce_ttl", "call": "announce_chunk", "arg": 1, "params": "(ttl : Int) (config_ : Cfg)", "fallback": """
+def receive_announce_ttl (ttl : Int) (config_ : Cfg) : Int :=
   ttl"""},
-    {"name": "receive_put_ttl", "call": "put", "on": "chunk_store_", "arg": 2, "params": "(ttl : Int)", "fallback": """
-def receive_put_ttl (ttl : Int) : Int :=
+    {"name": "receive_put_ttl", "call": "put", "on": "chunk_store_", "arg": 2, "params": "(ttl : Int) (config_ : Cfg)", "fallback": """
+def receive_put_ttl (ttl : Int) (config_ : Cfg) : Int :=
   ttl"""},
 ]
 
@@ -1444,8 +1444,8 @@ ANNOUNCE_SITES = [
     {"name": "announce_ttl_source", "source": "ttl_opt", "params": "(manifest_expires_at : Int) (config_ : Cfg) (wall_now : Int)", "fallback": """
 def announce_ttl_source (manifest_expires_at : Int) (config_ : Cfg) (wall_now : Int) : Option Int :=
   manifest_ttl manifest_expires_at config_ wall_now"""},
-    {"name": "announce_shard_ttl", "call": "publish_shards", "on": "dht_", "arg": 4, "allow_nested": True, "params": "(ttl_opt : Int)", "fallback": """
-def announce_shard_ttl (ttl_opt : Int) : Int :=
+    {"name": "announce_shard_ttl", "call": "publish_shards", "on": "dht_", "arg": 4, "allow_nested": True, "params": "(ttl_opt : Int) (config_ : Cfg)", "fallback": """
+def announce_shard_ttl (ttl_opt : Int) (config_ : Cfg) : Int :=
   ttl_opt"""},
     {"name": "announce_advertised_ttl", "call": "add_contact", "on": "dht_", "arg": 2, "allow_nested": True,
      "params": "(payload_ttl : Int) (ttl_opt : Int) (config_ : Cfg)", "fallback": """
